@@ -130,17 +130,30 @@ func runC07(c *core.Ctx) {
 				g, w := core.MustPassBefore(fn, r, func(in ssa.Instruction) bool { return in == snapShrink.(ssa.Instruction) })
 				a.check(g, fname(fn)+" returns the buffer map only after the merge", r, "", "the buffer's result map is returned without removing tombstones / reading the missed keys from the snapshot (a deleted key comes back with an empty value): "+a.w(w))
 			}
-			// the missed keys: appended exactly on the !ok edge
-			var appends []ssa.CallInstruction
-			core.Instrs(fn, func(in ssa.Instruction) {
-				ci, ok := in.(*ssa.Call)
-				if !ok {
-					return
+			// the missed keys: appended exactly on the !ok edge — in the function itself, or in a private helper
+			// that is handed the key list and the buffer's result map
+			isBufMap := func(v ssa.Value) bool {
+				ex, ok := core.Strip(v).(*ssa.Extract)
+				return ok && ex.Tuple == bufMap
+			}
+			type classifier struct {
+				fn      *ssa.Function
+				isMap   func(ssa.Value) bool // the hit map inside fn
+				hitTest []ssa.Instruction    // in the OUTER function: the instructions at which the hit map is consulted
+			}
+			cls := []classifier{{fn, isBufMap, nil}}
+			for _, hc := range core.FindCalls(fn, func(cc *ssa.CallCommon) bool {
+				g := cc.StaticCallee()
+				return g != nil && g.Pkg == fn.Pkg && g.Object() != nil && !g.Object().Exported() && len(g.Blocks) > 0
+			}) {
+				g := hc.Common().StaticCallee()
+				for k, arg := range hc.Common().Args {
+					if isBufMap(arg) && k < len(g.Params) {
+						par := g.Params[k]
+						cls = append(cls, classifier{g, func(v ssa.Value) bool { return core.Strip(v) == ssa.Value(par) }, []ssa.Instruction{hc}})
+					}
 				}
-				if b, ok := ci.Call.Value.(*ssa.Builtin); ok && b.Name() == "append" {
-					appends = append(appends, ci)
-				}
-			})
+			}
 			pOK := core.PTrue(func(v ssa.Value) bool {
 				ex, ok := v.(*ssa.Extract)
 				if !ok || ex.Index != 1 {
@@ -149,54 +162,73 @@ func runC07(c *core.Ctx) {
 				_, isLk := ex.Tuple.(*ssa.Lookup)
 				return isLk
 			})
-			for _, ap := range appends {
-				g, w := core.Guarded(fn, ap, pOK, false)
-				a.check(g, fname(fn)+" snapshot asked only for missed keys", ap, "", "a key the buffer answered is also read from the snapshot: "+a.w(w))
+			nAppends := 0
+			var hitTests []ssa.Instruction
+			for _, cl := range cls {
+				core.Instrs(cl.fn, func(in ssa.Instruction) {
+					if lk, ok := in.(*ssa.Lookup); ok && lk.CommaOk && cl.isMap(lk.X) {
+						if cl.hitTest != nil {
+							hitTests = append(hitTests, cl.hitTest...)
+						} else {
+							hitTests = append(hitTests, in)
+						}
+					}
+					ci, ok := in.(*ssa.Call)
+					if !ok {
+						return
+					}
+					if b, ok := ci.Call.Value.(*ssa.Builtin); !ok || b.Name() != "append" || ci.Type().String() != "[][]byte" {
+						return
+					}
+					nAppends++
+					g, w := core.Guarded(cl.fn, ci, pOK, false)
+					a.check(g, fname(fn)+" snapshot asked only for missed keys", ci, "", "a key the buffer answered is also read from the snapshot: "+a.w(w))
+				})
 			}
-			a.checkAt(len(appends) == 1, fname(fn)+" collects missed keys", a.fnPos(fn), "", "missed-key collection not found")
+			a.checkAt(nAppends == 1, fname(fn)+" collects missed keys", a.fnPos(fn), "", "missed-key collection not found")
 			// the hit map must not change while keys are still being classified: a key may be repeated in
 			// the batch, and a tombstone removed at its first occurrence would turn the second into a "miss"
-			core.Instrs(fn, func(in ssa.Instruction) {
-				lk, ok := in.(*ssa.Lookup)
-				if !ok || !lk.CommaOk {
-					return
-				}
-				if ex, ok := core.Strip(lk.X).(*ssa.Extract); !ok || ex.Tuple != bufMap {
-					return
-				}
+			for _, ht := range hitTests {
 				mutated := false
 				core.Instrs(fn, func(m ssa.Instruction) {
 					isMut := false
 					switch x := m.(type) {
 					case *ssa.MapUpdate:
-						if ex, ok := core.Strip(x.Map).(*ssa.Extract); ok && ex.Tuple == bufMap {
-							isMut = true
-						}
+						isMut = isBufMap(x.Map)
 					case *ssa.Call:
 						if b, ok := x.Call.Value.(*ssa.Builtin); ok && b.Name() == "delete" {
-							if ex, ok := core.Strip(x.Call.Args[0]).(*ssa.Extract); ok && ex.Tuple == bufMap {
-								isMut = true
-							}
+							isMut = isBufMap(x.Call.Args[0])
 						}
 					}
 					if !isMut {
 						return
 					}
 					q := &core.Q{Fn: fn}
-					if found, w, _ := q.Reach(m, func(t ssa.Instruction) bool { return t == ssa.Instruction(lk) }); found {
+					if found, w, _ := q.Reach(m, func(t ssa.Instruction) bool { return t == ht }); found {
 						mutated = true
 						a.viol(fname(fn)+" hit map is not modified while keys are classified", m, "the buffer's result map is modified (tombstone removed / entry added) on a path that leads back to the hit test: a key repeated in the batch is classified differently at its second occurrence — a key deleted in the transaction is read from the snapshot and returned: "+a.w(w))
 					}
 				})
 				if !mutated {
-					a.ok(fname(fn)+" hit map is not modified while keys are classified", in, "")
+					a.ok(fname(fn)+" hit map is not modified while keys are classified", ht, "")
 				}
-			})
-			ad := p.Prov().Desc(snapShrink.Common().Args[1])
+			}
+			a.checkAt(len(hitTests) >= 1, fname(fn)+" hit test", a.fnPos(fn), "", "no lookup of the buffer's result map found")
+			pvI := p.Prov()
+			ad := pvI.Desc(snapShrink.Common().Args[1])
 			okArg := len(ad) >= 1
 			for _, d := range ad {
 				if !strings.HasPrefix(d, "append(") && d != "makeslice" {
-					okArg = false
+					// the result of the private classifier helper
+					viaHelper := false
+					for _, cl := range cls[1:] {
+						if d == "call("+fname(cl.fn)+")#0" || strings.HasPrefix(d, "call("+fname(cl.fn)+")#0") {
+							viaHelper = true
+						}
+					}
+					if !viaHelper {
+						okArg = false
+					}
 				}
 			}
 			a.check(okArg, fname(fn)+" snapshot gets the missed keys", snapShrink, "", fmt.Sprint("snapshot is asked for ", ad))
